@@ -284,6 +284,16 @@ where
         return galois_element(p, g.i64("order")).to_string();
     }
 
+    // optional: fill the whole scratch arena with the 64-bit pattern `scr` (content of the scratch polynomial
+    // the in-place forms go through)
+    if let Some(v) = g.0.get("scr") {
+        let pat: i64 = v.parse().unwrap();
+        let sref = scratch.borrow();
+        for ch in sref.data.chunks_exact_mut(8) {
+            ch.copy_from_slice(&pat.to_ne_bytes());
+        }
+    }
+
     let flags = |stray: bool, mutin: bool| -> String { format!("{}{}", if stray { " stray" } else { "" }, if mutin { " mutin" } else { "" }) };
 
     // ---------------------------------------------------------------- split / merge
